@@ -190,6 +190,46 @@ def numbers_part(run):
     run.validated += n
 
 
+def dates_part(run):
+    """the tree's own string of date / datetime / timedelta constants (Constant.get_string, Insert.to_value, also as raw row values),
+    read back by each of the three real lexers + parsers: one string constant whose value is str(value) (concrete boundary family, stated as such)"""
+    import datetime as dt
+    from mindsdb_sql import parse_sql
+    from mindsdb_sql.parser.ast import Constant, Select, Insert, Identifier, BinaryOperation
+    from harness.c07lib import DATE_VALUES
+
+    class Stamp(dt.datetime):
+        """a datetime subclass (what data frames hand over)"""
+    vals = list(DATE_VALUES) + [dt.timedelta(0), dt.timedelta(microseconds=1), dt.timedelta(days=999999999), dt.datetime(2020, 1, 2, 0, 0), dt.date(2024, 2, 29),
+                                dt.datetime(2020, 1, 2, 3, 4, 5, 600000, tzinfo=dt.timezone.utc), Stamp(2021, 3, 4, 5, 6, 7)]
+    bad, n = {}, 0
+    for v in vals:
+        forms = [('select-list', Select(targets=[Constant(v)])), ('where', Select(targets=[Identifier('a')], from_table=Identifier('t'), where=BinaryOperation('>', args=[Identifier('a'), Constant(v)]))),
+                 ('insert-node', Insert(table=Identifier('t'), columns=[Identifier('a')], values=[[Constant(v)]])),
+                 ('insert-raw', Insert(table=Identifier('t'), columns=[Identifier('a')], values=[[v]]))]
+        for form, tree in forms:
+            try:
+                text = tree.to_string()
+            except Exception as e:  # noqa
+                bad.setdefault((form, 'print raises %s' % type(e).__name__), []).append(repr(v))
+                continue
+            for d in ('mindsdb', 'mysql', 'sqlite'):
+                n += 1
+                try:
+                    back = parse_sql(text, d)
+                    node = back.targets[0] if form == 'select-list' else back.where.args[1] if form == 'where' else back.values[0][0]
+                    got = node.value if type(node) is Constant else ('?', type(node).__name__)
+                except Exception as e:  # noqa
+                    got = ('?', 'parse raises %s' % type(e).__name__)
+                if not (isinstance(got, str) and got == str(v)):
+                    bad.setdefault((form, d), []).append('%r printed %r read %r' % (v, text, got))
+    for (form, d), items in sorted(bad.items()):
+        run.counterexample('date-to-string:%s:%s' % (form, d), 'date constant in %s, read by %s: %s (%d values fail this way)' % (form, d, items[0], len(items)),
+                           {'dates': {'form': form, 'dialect': d, 'examples': items[:5]}}, True)
+    run.ob('dates:tree-string:%d values x 4 forms x 3 dialects' % len(vals), 'counterexample' if bad else 'discharged', '%d read-backs' % n)
+    run.validated += n
+
+
 def specs():
     return [
         dict(fn='lit_render', twin='lit_render_reach', replay=r_lit),
@@ -209,7 +249,7 @@ def run(tier):
                      'render_ddl_query.<locals>.LiteralCompiler.render_literal_value', 'render_string_literal',
                      'Constant.get_string', 'Insert.to_value']
     run.assumptions = ['target lexical rules: MySQL reader (back-slash escapes, doubled quotes) for mysql; standard SQL reader (doubled quotes) otherwise; mindsdb dialect reader for the tree\'s own string',
-                       'int/float/bool/NULL in the tree\'s own string: a concrete family over the float formatting boundaries and machine-word boundaries (numbers part); in SQLAlchemy renderings: the typed-constant family; date formatting is CPython str() (trusted)',
+                       'int/float/bool/NULL in the tree\'s own string: a concrete family over the float formatting boundaries and machine-word boundaries (numbers part); in SQLAlchemy renderings: the typed-constant family; date / datetime / timedelta constants: a concrete boundary family (dates part, and the kind date of the typed-constant family); the literal must read back as str(value), str() of a date as CPython prints it is the reference form',
                        'select-list labels (AS "<value>") are quoted by SQLAlchemy (trusted)',
                        'the postgres fallback path (str(ast).replace("`", "")) is covered by C17, not here']
     ch_obligations(run, HARNESS, specs(), cond_to=150 if tier == 'quick' else 900)
@@ -221,6 +261,10 @@ def run(tier):
         numbers_part(run)
     except Exception as e:  # noqa
         run.error('numbers part crashed: %r' % e)
+    try:
+        dates_part(run)
+    except Exception as e:  # noqa
+        run.error('dates part crashed: %r' % e)
     try:
         wiring(run)
     except Exception as e:  # noqa
